@@ -68,6 +68,39 @@ int clock_nanosleep(clockid_t clk, int flags, const struct timespec *req, struct
 }
 
 int usleep(useconds_t us) { vclock_ns += (long long)us * 1000; return 0; }
+unsigned int sleep(unsigned int s_) { vclock_ns += (long long)s_ * 1000000000ll; return 0; }
+
+/* waiting on nothing with a time-out is a sleep too (select / poll idioms); with descriptors the call returns "timed out" at once,
+ * after the virtual wait - the harness has no readable descriptors */
+#include <poll.h>
+#include <sys/select.h>
+int select(int n, fd_set *r, fd_set *w, fd_set *e, struct timeval *tv) {
+    (void)n;
+    if (tv) vclock_ns += (long long)tv->tv_sec * 1000000000ll + (long long)tv->tv_usec * 1000;
+    if (r) FD_ZERO(r);
+    if (w) FD_ZERO(w);
+    if (e) FD_ZERO(e);
+    return 0;
+}
+int pselect(int n, fd_set *r, fd_set *w, fd_set *e, const struct timespec *ts, const sigset_t *m) {
+    (void)n; (void)m;
+    if (ts) vclock_ns += (long long)ts->tv_sec * 1000000000ll + ts->tv_nsec;
+    if (r) FD_ZERO(r);
+    if (w) FD_ZERO(w);
+    if (e) FD_ZERO(e);
+    return 0;
+}
+int poll(struct pollfd *fds, nfds_t n, int ms) {
+    for (nfds_t i = 0; i < n; i++) fds[i].revents = 0;
+    if (ms > 0) vclock_ns += (long long)ms * 1000000ll;
+    return 0;
+}
+int ppoll(struct pollfd *fds, nfds_t n, const struct timespec *ts, const sigset_t *m) {
+    (void)m;
+    for (nfds_t i = 0; i < n; i++) fds[i].revents = 0;
+    if (ts) vclock_ns += (long long)ts->tv_sec * 1000000000ll + ts->tv_nsec;
+    return 0;
+}
 
 int clock_gettime(clockid_t clk, struct timespec *ts) {
     (void)clk;
